@@ -146,3 +146,79 @@ Definition ref_special_chars : list (list N * N) :=
    ([114; 101; 116; 117; 114; 110], 13)].
 Definition ref_numeric_constants : list (list N * N) :=
   [([78; 97; 78], 0); ([73; 110; 102], 1); ([45; 73; 110; 102], 2)].
+
+(* ------------------------------------------------------------------------------------ *)
+(** * Plain text as a grammar (used by the theorems about incomplete input and spans)
+    Plain forms: symbols of lower-case letters (other than nil, true, false), strings without quote
+    or backslash, lists, vectors, and the quote and deref prefixes; elements are separated by one
+    space. *)
+Inductive pform :=
+| PSym (name : list N)
+| PStr (chars : list N)
+| PList (l : list pform)
+| PVec (l : list pform)
+| PQuote (f : pform)
+| PDeref (f : pform).
+
+Fixpoint render (f : pform) : list N :=
+  let fix seq (l : list pform) : list N :=
+    match l with
+    | [] => []
+    | [x] => render x
+    | x :: r => render x ++ 32 :: seq r
+    end in
+  match f with
+  | PSym n => n
+  | PStr c => 34 :: c ++ [34]
+  | PList l => 40 :: seq l ++ [41]
+  | PVec l => 91 :: seq l ++ [93]
+  | PQuote g => 39 :: render g
+  | PDeref g => 64 :: render g
+  end.
+Fixpoint render_seq (l : list pform) : list N :=
+  match l with
+  | [] => []
+  | [x] => render x
+  | x :: r => render x ++ 32 :: render_seq r
+  end.
+
+Definition reserved (n : list N) : bool :=
+  str_eqb n [110; 105; 108] || str_eqb n [116; 114; 117; 101] || str_eqb n [102; 97; 108; 115; 101].
+
+Fixpoint wf (f : pform) : bool :=
+  match f with
+  | PSym n => (match n with [] => false | _ => true end) && forallb is_letter n && negb (reserved n)
+  | PStr c => forallb (fun x => negb (x =? 34) && negb (x =? 92)) c
+  | PList l | PVec l => forallb wf l
+  | PQuote g | PDeref g => wf g
+  end.
+
+(** Incomplete plain text: the input stops inside a string, inside a list or vector (after some
+    complete elements and possibly inside a further incomplete one), or right after a prefix. *)
+Inductive pctx :=
+| KStr (chars : list N)                              (* an opening quote and chars *)
+| KList (closerless : bool) (done : list pform) (inner : option pctx)   (* true: ( ..  false: [ .. *)
+| KQuote (inner : option pctx)                       (* ' *)
+| KDeref (inner : option pctx).                      (* @ *)
+
+Fixpoint render_ctx (k : pctx) : list N :=
+  let tail := fun (o : option pctx) => match o with Some i => render_ctx i | None => [] end in
+  match k with
+  | KStr c => 34 :: c
+  | KList paren done inner =>
+      (if paren then 40 else 91) ::
+      match done, inner with
+      | [], _ => tail inner
+      | _, None => render_seq done
+      | _, Some i => render_seq done ++ 32 :: render_ctx i
+      end
+  | KQuote inner => 39 :: tail inner
+  | KDeref inner => 64 :: tail inner
+  end.
+Fixpoint wf_ctx (k : pctx) : bool :=
+  let sub := fun (o : option pctx) => match o with Some i => wf_ctx i | None => true end in
+  match k with
+  | KStr c => forallb (fun x => negb (x =? 34) && negb (x =? 92)) c
+  | KList _ done inner => forallb wf done && sub inner
+  | KQuote inner | KDeref inner => sub inner
+  end.
